@@ -1,0 +1,12 @@
+//go:build verif
+
+package java_identify
+
+// Contracts checked by /verif (vcgo). Comment-only: no executable code.
+// C09: state invariant of the identifier pass between two callbacks.
+
+//@ invariant currentNode != nil && Allocated(currentNode)
+
+//@ func NewJavaIdentifierListener
+//@ establishes
+//@ modifies *
